@@ -3,6 +3,7 @@
     Mathematical Components definitions (least divisor > 1, primality, sorted factorisation). *)
 From mathcomp Require Import all_ssreflect.
 From RlibV Require Import C13.Model C13.ProofsBreak C13.ProofsInv C13.Ghost C13.ProofsFact C13.ProofsFinite C13.ProofsOnce.
+From RlibV Require Import C13.Corr C13.ProofsCorr.
 
 (** the loop invariant: the state after the outer iterations with index 2 .. i (i = k+1) of a table
     of length n: cells up to i hold their least prime factor (0 for 0 and 1); a cell above i holds
@@ -77,3 +78,13 @@ Theorem c13_written_once_upto : forall n k : nat, k.+1 < n ->
   (sieve_upto_g n k).1 = sieve_upto n k /\
   forall x, nth 0 (sieve_upto_g n k).2 x = (nth 0 (mnp (sieve_upto n k)) x != 0).
 Proof. exact written_once_upto. Qed.
+
+(** the correspondence cases of Corr.v, for EVERY case and with no side condition: if the observation
+    recorded in [c] (the dumped tables [min_prime(m)], [is_prime(m)], [primes()] of a limit n, or the
+    flattened [factorize(m)] lists for m = 0..n) equals what the model computes ([model_check]), then it
+    satisfies the model-independent trial-division specification ([spec_check]: every table entry is the
+    least divisor found by trial division, the prime list is exactly the trial-division primes <= n, every
+    factorisation record for m >= 1 lists trial-division primes strictly increasing with exponents >= 1 and
+    product m).  Nothing is excluded: a negative limit or [CPanic] already fails [model_check]. *)
+Theorem c13_model_check_spec_check : forall c : case, model_check c = true -> spec_check c = true.
+Proof. exact model_check_spec_check. Qed.
